@@ -57,6 +57,19 @@ func atomKey(e ast.Expr) (string, bool) {
 		}
 		e = p.X
 	}
+	// order comparisons share one atom: a < b;  a >= b is its negation;  a > b is b < a;  a <= b is !(b < a)
+	if be, ok := e.(*ast.BinaryExpr); ok {
+		switch be.Op {
+		case token.LSS:
+			return types.ExprString(&ast.BinaryExpr{X: be.X, Op: token.LSS, Y: be.Y}), false
+		case token.GEQ:
+			return types.ExprString(&ast.BinaryExpr{X: be.X, Op: token.LSS, Y: be.Y}), true
+		case token.GTR:
+			return types.ExprString(&ast.BinaryExpr{X: be.Y, Op: token.LSS, Y: be.X}), false
+		case token.LEQ:
+			return types.ExprString(&ast.BinaryExpr{X: be.Y, Op: token.LSS, Y: be.X}), true
+		}
+	}
 	return types.ExprString(e), false
 }
 
